@@ -124,8 +124,9 @@ class ComparisonResult:
     for name in utils.get_output_tensor_names(
         self._reference_model, signature_key
     ):
-      # Several signature outputs may refer to the same tensor.
-      if name not in output_tensor_results:
+      # Several signature outputs may refer to the same tensor, and an output
+      # may also be a model input.
+      if name not in output_tensor_results and name not in input_tensor_results:
         output_tensor_results[name] = result.pop(name)
 
     constant_tensor_results = {}
@@ -138,7 +139,9 @@ class ComparisonResult:
         self._reference_model,
         subgraph_index,
     ):
-      constant_tensor_results[name] = result.pop(name)
+      # A constant may be a model output as well.
+      if name not in output_tensor_results:
+        constant_tensor_results[name] = result.pop(name)
 
     self._comparison_results[signature_key] = SingleSignatureComparisonResult(
         error_metric=error_metric,
